@@ -7,6 +7,8 @@ use crate::engine::*;
 use serde::{Deserialize, Serialize};
 use serde_json::json;
 
+/// terms placed next to a sexagesimal literal inside a unit function
+pub const SEXA_OTHERS: [&str; 8] = ["0", "1", "rad(0)", "deg(0)", "rad(1)", "deg(90)", "(1)", "pi"];
 pub const LEAVES: [&str; 14] = ["0", "1", "2", "3", "1.5", "90", "1e2", "1_000", "0.1", "pi", "tau", "inf", ".inf", "7"];
 
 #[derive(Clone, Debug, Serialize, Deserialize, PartialEq)]
@@ -184,6 +186,9 @@ pub enum Case {
     Literal { text: String, f32_target: bool },
     /// sexagesimal d:m[:s[.frac]] with sign and tag
     Sexa { neg: bool, d: u32, m: u32, s: Option<(u32, Option<u32>)>, tag: u8 },
+    /// a sexagesimal literal inside a unit function next to another term: `f(A + S)` and `f(S + A)` must agree
+    /// (addition of two operands commutes exactly), and `deg(S)` alone is degrees converted to radians
+    SexaCtx { outer_deg: bool, other: u8, sexa: String },
     /// arbitrary text requested as f64 / f32 / untyped with the option on
     Raw { text: String },
 }
@@ -307,6 +312,38 @@ impl Prop for C19 {
                     }
                 }
             }
+            Case::SexaCtx { outer_deg, other, sexa } => {
+                let f = if *outer_deg { "deg" } else { "rad" };
+                let a = SEXA_OTHERS[*other as usize];
+                let d1 = format!("{}\n", quoted(&format!("{}({} + {})", f, a, sexa)));
+                let d2 = format!("{}\n", quoted(&format!("{}({} + {})", f, sexa, a)));
+                let d0 = format!("{}\n", quoted(&format!("{}({})", f, sexa)));
+                v.execs = 3;
+                v.compared = 2;
+                v.nontrivial = true;
+                v.classes.push("sexagesimal_inside_unit_function");
+                match (de_f64(&d1, true), de_f64(&d2, true), de_f64(&d0, true)) {
+                    (Err(p), _, _) | (_, Err(p), _) | (_, _, Err(p)) => v.fail("panic", format!("{:?}: {}", d1, p)),
+                    (Ok(r1), Ok(r2), Ok(r0)) => {
+                        let same_r = match (&r1, &r2) {
+                            (Ok(x), Ok(y)) => same(*x, *y),
+                            (Err(_), Err(_)) => true,
+                            _ => false,
+                        };
+                        if !same_r {
+                            v.fail("sexagesimal_depends_on_position", format!("{:?} gives {:?} but {:?} gives {:?}: the meaning of a sexagesimal literal inside a unit function must not depend on what precedes it", d1, r1, d2, r2));
+                        } else if *outer_deg {
+                            // deg(d:m:s) is the angle in degrees, converted once
+                            let parts: Vec<f64> = sexa.split(':').map(|x| x.parse::<f64>().unwrap_or(f64::NAN)).collect();
+                            let degs = parts[0] + parts.get(1).copied().unwrap_or(0.0) / 60.0 + parts.get(2).copied().unwrap_or(0.0) / 3600.0;
+                            match r0 {
+                                Ok(x) if close(x, degs * K, 8.0) => {}
+                                other => v.fail("sexagesimal_angle_differs", format!("{:?}: expected {:?} (degrees, minutes, seconds converted to radians once), got {:?}", d0, degs * K, other)),
+                            }
+                        }
+                    }
+                }
+            }
             Case::Raw { text } => {
                 v.execs = 4;
                 v.nontrivial = !text.is_empty();
@@ -377,6 +414,7 @@ impl Prop for C19 {
             Case::Expr { ast, tag, sp, quoted, f32_target } => format!("{}|{}{}|{}|{}{}", clause, ["", "!degrees ", "!radians "][*tag as usize], ast.render(*sp), if *quoted { "quoted" } else { "plain" }, if *f32_target { "f32" } else { "f64" }, ""),
             Case::Literal { text, f32_target } => format!("{}|literal {:?}|{}", clause, text, if *f32_target { "f32" } else { "f64" }),
             Case::Sexa { neg, d, m, s, tag } => format!("{}|sexagesimal neg={} {}:{}:{:?}|tag={}", clause, neg, d, m, s, tag),
+            Case::SexaCtx { outer_deg, other, sexa } => format!("{}|{}({} + {})", clause, if *outer_deg { "deg" } else { "rad" }, SEXA_OTHERS[*other as usize], sexa),
             Case::Raw { text } => format!("{}|raw {:?}", clause, text.chars().take(40).collect::<String>()),
         }
     }
@@ -465,6 +503,13 @@ pub fn run(ctx: &Ctx) -> i32 {
                         cases.push(Case::Sexa { neg, d, m, s, tag });
                     }
                 }
+            }
+        }
+    }
+    for outer_deg in [true, false] {
+        for other in 0..SEXA_OTHERS.len() as u8 {
+            for sexa in ["1:30", "0:30:30", "12:00:36", "2:15", "359:59:59"] {
+                cases.push(Case::SexaCtx { outer_deg, other, sexa: sexa.to_string() });
             }
         }
     }
